@@ -172,6 +172,9 @@ def make_symbolic(I, kind, name):
         return v
     if tag == 'tuple':
         return tuple(make_symbolic(I, k, "%s[%d]" % (name, i)) for i, k in enumerate(kind[1:]))
+    if tag == 'dict':
+        # a native dictionary with the given (concrete) keys and values of the given kinds
+        return {k: make_symbolic(I, vk, "%s[%r]" % (name, k)) for k, vk in kind[1].items()}
     if tag == 'payload':
         # request payload: every field that is not given a kind is created on first use as a
         # maybe-absent holder with an uninterpreted, request-tainted `.value`
@@ -376,9 +379,11 @@ def prove_contract(session, c, max_paths=4000, time_budget=None, known=()):
         for p in deferred:
             args[p] = make_symbolic(I, c.arg_kinds[p][1](args), p)
         if a.vararg is not None:
-            args[a.vararg.arg] = ()
+            k = c.arg_kinds.get(a.vararg.arg)
+            args[a.vararg.arg] = tuple(make_symbolic(I, k, a.vararg.arg)) if k is not None else ()
         if a.kwarg is not None:
-            args[a.kwarg.arg] = {}
+            k = c.arg_kinds.get(a.kwarg.arg)
+            args[a.kwarg.arg] = dict(make_symbolic(I, k, a.kwarg.arg)) if k is not None else {}
         path.inputs = {k: M.snapshot_value(v) for k, v in args.items()}
         path.live_inputs = args
         spec_locals = dict(args)
